@@ -6,6 +6,16 @@ VERIF = os.path.dirname(os.path.dirname(os.path.abspath(__file__)))
 ALL = ['C%02d' % i for i in range(1, 21)]
 
 CHECKS = {
+    'C02': dict(
+        category='model_checking', design='DESIGN.md section 4 C02, Appendix A',
+        technique='TLA+ spec of the parameter-file format (Yanny: reference reader SpecParse, Canon, Render* state machine); TLC enumerates renderings of '
+                  'literal documents per style-dimension group and checks SpecParse(text)=Canon(doc); every complete rendering is read by pydl (path/text/binary/raw) '
+                  'and compared with TLC\'s Canon; fixture files and re-layouts are parsed by SpecParse in TLC (Trace_YannyRead) and compared with pydl\'s result',
+        text='Bounded-exhaustive per dimension group (cell quoting styles x name case x padding; line styles incl. CRLF, tabs, continuation, trailing comments, noise lines; '
+             'typedef styles incl. one-line and <n>; all admissible item interleavings) over 5 literal documents, plus TLC simulation of the full product in thorough; '
+             'the product of all dimensions is sampled, not exhausted.',
+        note='Trusted: TLC, the character-list abstraction, the comparison of numeric cells by value of their token. The reading of the format is DESIGN.md Appendix A '
+             '(the sdss.org specification is not available offline). Known finding D-C02-4 is reported, not suppressed.'),
     'C06': dict(
         category='model_checking', design='DESIGN.md section 4 C06',
         technique='TLA+ spec (IdLayout) of both bit layouts; TLC enumerates per-field sweeps/boundaries/rejections; '
@@ -22,6 +32,20 @@ CHECKS = {
              'row orders, case variants), every label subset/order/case, every value over defined+undefined bits, every existence query; load/reload histories; '
              'plus seeded random files (up to 8 groups x 64 labels) whose real call histories TLC accepts or rejects action by action.',
         note='Trusted: TLC, the .par renderer in c07.py, bit-set abstraction of uint64. File-side names upper case (as sdssMaskbits.par); repeated labels in one query not asserted.'),
+    'C14': dict(
+        category='model_checking', design='DESIGN.md section 4 C14',
+        technique='TLA+ spec (IdlBuiltins over exact rationals, every function phrased twice and TLC checks the phrasings agree, 39 laws); TLC enumerates arrays/widths/shapes; '
+                  'every TLC state replayed into pydl.smooth/median/uniq/rebin; recorded random calls judged by Trace_IdlBuiltins',
+        text='Bounded-exhaustive: all arrays over 4 values up to length 5 (7 thorough) x all widths x edge flag, all 3x3 (3x4) images, all sorted arrays and sorting permutations, '
+             'all rebin shapes over dims {1,2,3,4,6} to rank 2 (3) with every integral target, both modes, rejection targets and the inexact-reciprocal factor family; exact rational comparison.',
+        note='Trusted: TLC, Fraction(float) abstraction with 1e-12 (float64) tolerance. Integer-dtype rebin values are only demanded for sample=True (upstream documents integer arithmetic as not IDL-compatible).'),
+    'C17': dict(
+        category='model_checking', design='DESIGN.md section 4 C17',
+        technique='TLA+ spec (Reject: djs_reject set algebra, maskinterp over rationals, aesthetics, reflect median, skymask dilation; 41 laws) enumerated by TLC; '
+                  'every TLC case replayed into the real functions in all calling conventions; recorded random calls (reject chains fed back until qdone) judged by Trace_Reject',
+        text='Bounded-exhaustive: every (inmask, prev, violator sets, sticky, grow 0..3) for n<=4 (5-6 partially), thresholds on/around every limit, every mask for 1-3-D interpolation on every axis, '
+             'every ivar zero pattern x 4 aesthetics methods, medians n<=7, skymask over flag patterns x ngrow x int16/int32/int64/uint64.',
+        note='Trusted: TLC, exact abstraction of masks as position sets. Where the statement leaves the grow neighbourhood of inmask-excluded points open the spec accepts both readings. maxrej/group options outside the statement.'),
     'C20': dict(
         category='fault_enumeration', design='DESIGN.md section 4 C20',
         technique='TLA+ state machine (EnvProtocol: save/mutate/steps-with-faults/restore) model-checked by TLC for every fault position and initial '
